@@ -25,7 +25,7 @@ func c18(c *Ctx) {
 	m := newTableModel(c)
 	r.Floor("R1.full-bucket", 2)
 	r.Floor("R2.removal-site", 3)
-	r.Floor("R2.credit", 2)
+	r.Floor("R2.credit", 4)
 	r.Floor("R3.promotion", 3)
 	r.Floor("R4.record-update", 3)
 	r.Floor("R5.push-front", 1)
@@ -137,6 +137,46 @@ func c18(c *Ctx) {
 			}
 			r.Fail("R2.credit", key, p.Pos(w.Store.Pos()), "liveness credit written with an unrecognised value")
 			continue
+		}
+		// the entry credited or debited is the one the check was made for (the response's own
+		// node object), never an entry looked up again by id: a stale answer must not land on a
+		// re-admitted entry
+		if _, _, base, okB := core.FieldRef(w.Store.Addr); okB {
+			fromResp := func(v ssa.Value) bool {
+				return core.Derives(v, func(x ssa.Value) bool { return core.IsLoadOfField(x, "revalidationResponse", "n") }, core.DeriveOpts{}) &&
+					!core.Derives(v, func(x ssa.Value) bool { return core.IsLoadOfField(x, "bucket", "entries") }, core.DeriveOpts{})
+			}
+			okT := false
+			if u, isLoad := core.Unwrap(base).(*ssa.UnOp); isLoad && u.Op == token.MUL {
+				if cell, isCell := u.X.(*ssa.Alloc); isCell {
+					okT = true
+					n := 0
+					if refs := cell.Referrers(); refs != nil {
+						for _, rf := range *refs {
+							if st, isSt := rf.(*ssa.Store); isSt && st.Addr == ssa.Value(cell) {
+								n++
+								if !fromResp(st.Val) {
+									okT = false
+								}
+							}
+						}
+					}
+					if n == 0 {
+						okT = false
+					}
+				}
+			}
+			if !okT {
+				okT = fromResp(base)
+			}
+			if _, isParam := core.Unwrap(base).(*ssa.Parameter); !isParam || w.Fn.Name() == "handleResponse" {
+				if core.ReachesInstr(w.Fn, 0, func(in ssa.Instruction) bool {
+					u, ok := in.(*ssa.UnOp)
+					return ok && core.IsLoadOfField(u, "revalidationResponse", "n")
+				}) {
+					r.Check(okT, "R2.credit", key+" target-is-checked-node", p.Pos(w.Store.Pos()), "the credit of the node object the response belongs to is updated", "the liveness result is applied to an entry looked up again (by id) instead of the node object that was checked: a late answer for a removed entry lands on a re-admitted entry with the same id")
+				}
+			}
 		}
 		k, _ := core.ConstInt(bo.Y)
 		respFact := func(truth bool) func(fs []core.Fact) bool {
